@@ -61,6 +61,8 @@ pub struct Session {
     pub kill_at_rpc: Option<usize>,
     /// the connection carrying the k-th RPC dies after lightningd executed the command (no reply)
     pub drop_at_rpc: Option<usize>,
+    /// the first pay command is answered with this JSON-RPC error (nothing is sent)
+    pub pay_error_once: Option<i64>,
     pub dropped: bool,
     pub rpc_count: usize,
     pub killed: bool,
@@ -248,6 +250,7 @@ impl Session {
             started: Instant::now(),
             kill_at_rpc: None,
             drop_at_rpc: None,
+            pay_error_once: None,
             dropped: false,
             rpc_count: 0,
             killed: false,
@@ -383,6 +386,13 @@ impl Session {
             }
             if method != "pay" {
                 let _ = stream.shutdown(std::net::Shutdown::Both);
+                return;
+            }
+        }
+        if method == "pay" {
+            if let Some(code) = self.pay_error_once.take() {
+                self.pays_seen.push(params.clone());
+                write_rpc(stream, &id, Err(RpcErr::new(code as i32, "injected: pay refused")));
                 return;
             }
         }
